@@ -82,7 +82,11 @@ CHECKS = {
              "string from chord.py's AST, parsed by Python's own re._parser, emitted as a Lean regex term) and proved, for "
              "every string, to accept exactly the grammar (Props/C10_Regex.lean: a verified regex matcher decides a "
              "denotational semantics with context-sensitive anchors; the pattern's language is decomposed structurally "
-             "into accidentals / degrees / item list / shorthands / bass); the `$`-variant is proved to accept label+newline.",
+             "into accidentals / degrees / item list / shorthands / bass); the `$`-variant is proved to accept label+newline. "
+             "validate_chord_label / split / join / reduce_extended_quality / scale_degree_to_bitmap / quality_to_bitmap / encode "
+             "themselves are REGENERATED as shallow Lean definitions (harness/translate/scalars_chordfn.py -> MirGen/ChordFns.lean) "
+             "and proved equal to the string-level models for all arguments, so every statement above holds of the code as translated "
+             "(Props/C10_GenFns.lean).",
         note="Trusted on the regex path: Python's re implements the regex semantics (validated on every run: CHORD_RE and "
              "random patterns vs the verified matcher, incl. newlines, NUL, non-ASCII, runs of 4000 accidentals) and the translator. "
              "The finding (validate_chord_label accepted a valid label followed by one newline) was repaired (CHORD_RE ends with \\Z); acceptance = grammar is now proved without exception.",
@@ -264,7 +268,8 @@ CHECKS = {
              "tetrads_inv <= tetrads <= triads <= thirds <= root pointwise, each _inv rule below its plain rule, "
              "majmin => triads, sevenths => tetrads, a tetrads match is never a mirex mismatch, the vocabularies of "
              "majmin / sevenths / mirex / *_inv, X always ignored; the 12 real functions are compared with the model "
-             "on ~5,200 labels (2,064 distinct encodings) and the lattice is asserted directly on the real functions.",
+             "on ~5,200 labels (2,064 distinct encodings) and the lattice is asserted directly on the real functions. "
+             "rotate_bitmap_to_root (mirex) is REGENERATED from the source and proved equal to the model's rotation (Props/C11_GenFns.lean).",
         note="Props/C11_Labels.lean bridges to C10: everything chord.encode can return is Reachable (encode_reachable), the "
              "rule model's quality bitmaps equal the regenerated tables, and the lattice is restated for grammar-derivable "
              "labels. Known finding: majmin_inv compares a maj/min reference whose bass is 8-11 semitones "
